@@ -128,7 +128,8 @@ def z_factor_DAK(
 
     rho_guess = 0.27 * pressure_reduced / temp_reduced
     # bracket goes from a z-factor of 5 down to 0.05
-    rho = brentq(residual, rho_guess / 5, rho_guess * 20, xtol=1e-16, rtol=1e-14)
+    # xtol is an absolute tolerance on rho, which itself scales with pressure: keep it relative
+    rho = brentq(residual, rho_guess / 5, rho_guess * 20, xtol=1e-16 * rho_guess, rtol=1e-14)
     Z_factor = 0.27 * pressure_reduced / (rho * temp_reduced)
     return Z_factor
 
